@@ -882,6 +882,9 @@ def c05_families(tier, seed, ids=None):
                  wh(Bo(True), ret(I(7))), call("usegen", I(4)), iff(Bo(True), ret(St("r"))), f, ret(I(8)), I(1)]
         ae.append(mk(ids, [incd, gbad, usegen, f] + after, {"after-error": fname}))
     out.append(("statements that finish through return after an error raised inside calls", ae, ("value", "residue")))
+    # loops nested directly in the bodies of loops over one to three iterators (the family of C02): here for "no accepted program crashes"
+    nest = [f for f in c02_families(tier, seed, Ids(9800000)) if f[0].startswith("loops nested directly in loop bodies")]
+    out.append(("loops nested directly in loop bodies (shared with C02)", nest[0][1], ("value",)))
     out.append(("random ill-typed sessions", gens.random_sessions(nr, seed, "c05", p_ill=0.25, first_id=600000), ("nocrash",)))
     return out
 
@@ -1006,6 +1009,15 @@ def c08_families(tier, seed, ids=None):
         twins.append(s2)
         pairs.append((s1, s2))
     out = [("sessions with injected failures", ss, ("value", "residue")), ("twin sessions (failure replaced by its completed assignments)", twins, ("value", "residue"))]
+    # every failing kind once at the start of a session (twice in a row for the kinds that involve generators), followed by every good
+    # statement in its fixed order: the loops with several live iterator contexts come after every kind of failure, not only where the
+    # random placement happens to put them
+    sy = []
+    for f in fails:
+        good = good_items(random.Random(7))
+        rep = 2 if ("generator" in f[0] or "loop" in f[0]) else 1
+        sy.append(mk(ids, list(prelude) + [f[1]] * rep + [probe, fr(["q"], [call("fromto", I(0), I(2))], N("q"))] + good + [probe], {"fails": [f[0]], "pos": [0], "systematic": True}))
+    out.append(("every failing kind at the start, then every good statement", sy, ("value", "residue")))
     # a failed statement leaves no trace in what later statements read from standard input (the input the interpreter has already
     # buffered included): statements that fail in every way, between reads
     sd = []
